@@ -955,6 +955,23 @@ VARIANTS += [
     ], (), twin=True),
     M("uspfs-decode-root-gain", USPFS, "                        SyntenyAssignment.LCA,\n                        lca_sets[synteny_tree],", "                        SyntenyAssignment.GAIN,\n                        lca_sets[synteny_tree],", "ROOT-CONTENT"),
     M("aggregate-literal-policy", REC, "    min_lts = table.entry()", "    min_lts = Entry(MergePolicy.MIN, RetentionPolicy.ANY)", "POLICY-FLOW"),
+    Variant("spfs-combinators-late-bound", SPFS, [
+        ("    spe_comb = _make_event_combinator(costs[NodeEvent.SPECIATION])\n    dup_comb = _make_event_combinator(costs[NodeEvent.DUPLICATION])\n    hgt_comb = _make_event_combinator(costs[NodeEvent.HORIZONTAL_TRANSFER])\n",
+         "    combs = {\n        event: lambda left, right: Candidate(\n            costs[event] + left.value + right.value,\n            ChildrenAssignment(left.info, right.info),\n        )\n        for event in (NodeEvent.SPECIATION, NodeEvent.DUPLICATION, NodeEvent.HORIZONTAL_TRANSFER)\n    }\n    spe_comb = combs[NodeEvent.SPECIATION]\n    dup_comb = combs[NodeEvent.DUPLICATION]\n    hgt_comb = combs[NodeEvent.HORIZONTAL_TRANSFER]\n"),
+    ], ("CLOSURE-LATE-BINDING",)),
+    Variant("twin-spfs-combinators-bound-by-default", SPFS, [
+        ("    spe_comb = _make_event_combinator(costs[NodeEvent.SPECIATION])\n    dup_comb = _make_event_combinator(costs[NodeEvent.DUPLICATION])\n    hgt_comb = _make_event_combinator(costs[NodeEvent.HORIZONTAL_TRANSFER])\n",
+         "    combs = {\n        event: _make_event_combinator(costs[event])\n        for event in (NodeEvent.SPECIATION, NodeEvent.DUPLICATION, NodeEvent.HORIZONTAL_TRANSFER)\n    }\n    spe_comb = combs[NodeEvent.SPECIATION]\n    dup_comb = combs[NodeEvent.DUPLICATION]\n    hgt_comb = combs[NodeEvent.HORIZONTAL_TRANSFER]\n"),
+    ], (), twin=True, note="the factory binds each cost at creation"),
+    Variant("binarize-pairs-leaves-by-position", MODEL, [
+        ("                }\n            )\n            yield result\n", "                }\n            )\n            result.leaf_object_species = dict(zip(\n                result.object_tree.iter_leaves(),\n                (result.species_lca.tree & self.leaf_object_species[leaf].name for leaf in self.object_tree.iter_leaves()),\n            ))\n            yield result\n"),
+    ], ("REFINEMENT-PAIRING",), note="leaf species re-keyed by position in the refinement"),
+    Variant("from-dict-costs-in-place", MODEL, [
+        ("            costs = {}\n\n            for event, value in data[\"costs\"].items():", "            costs = data[\"costs\"]\n\n            for event, value in list(costs.items()):"),
+        ("                costs[event_enum] = value\n", "                del costs[event]\n                costs[event_enum] = value\n"),
+    ], ("PARSE-READONLY",)),
+    M("all-trees-constrained-leaves-only", TREES, "    return _all_trees_from_triples(leaves, triples)\n", "    return _all_trees_from_triples([leaf for leaf in leaves if any(leaf in triple for triple in triples)], triples)\n", "LEAVES-SOURCE"),
+    T("twin-all-trees-leaves-listed", TREES, "    return _all_trees_from_triples(leaves, triples)\n", "    every = list(leaves)\n    return _all_trees_from_triples(every, triples)\n"),
     M("update-returns-in-loop", DP, "                self._value = value\n\n    update.__doc__", "                self._value = value\n                return\n\n    update.__doc__", "UPDATE-ALL-CANDIDATES"),
 ]
 
@@ -965,6 +982,7 @@ CANARY_RULES = (
     "COPY-BEFORE-MUTATE", "FRESH-ATTACH", "FRESH-STARTS", "ESCAPE-TAINT", "PREORDER-STATE", "TABLE-FRESH-CELLS",
     "NONE-SENTINEL-TRUTH", "OPTIONAL-CHECKED", "NO-TOPOLOGY-WRITE", "ELEMENT-UPDATE", "RESULT-UNCONDITIONAL",
     "FIELD-SOURCE", "SORT-KEY-ALIGNED", "ENTRY-OWNS-TAGS",
+    "PARSE-READONLY", "GEOM-NO-ORDER", "GRAPH-AS-GIVEN", "EVAL-NO-SHORTCUT", "CLOSURE-LATE-BINDING", "REFINEMENT-PAIRING", "KIND-ENUM-BASE", "TAG-TEST-CONSISTENT", "ROOT-CONTENT",
     "KEY-GUARD", "HASH-IDENTITY", "COST-GUARD", "COPY-FAITHFUL", "NAME-AS-KEY", "ENUM-NO-TRUNCATION", "SET-ALGEBRA-ARGS",
     "LEAF-MAP-DOMAIN", "WIDTH-VERBATIM", "TOPO-VERDICT", "ROOT-ORDER-SOURCE",
     "CANDIDATE-GUARDS", "TREE-ITER-EXPLICIT", "STALE-INPUT", "HASH-CANONICAL", "NODE-OPAQUE", "UPDATE-ALL-CANDIDATES",
